@@ -264,6 +264,14 @@ theorem heap_source_edits_invisible (h : Heap) (m : Nat) (hm : Born 0 h m) (es :
     (h1 : a ≠ cppOf h m) (h2 : a ≠ varsOf h m) : (es.foldl (fun acc e => e.run acc m) h).cell a = h.cell a :=
   edits_write_own_cells hm es a h1 h2
 
+/-- … and, the other way round, ANY history of in-place edits of a CQM (objective, constraints, variables, labels, adding and removing
+    constraints) leaves a model none of whose cells belongs to the CQM — the source of a `copy=True` constraint, of `set_objective` —
+    reading exactly the same -/
+theorem heap_cqm_edits_invisible_in_model (h : Heap) (d m : Nat) (hg : CGood h d) (hm : Born 0 h m)
+    (hdis : m ∉ cfp h d ∧ cppOf h m ∉ cfp h d ∧ varsOf h m ∉ cfp h d) (es : List CEdit) :
+    obs (es.foldl (fun acc e => e.run acc d) h) m = obs h m :=
+  (cqm_edits_leave_model hg hm hdis es).1
+
 /-- the option plumbing, as coded: `add_constraint` / `add_constraint_from_comparison` hand `copy` on by keyword;
     `add_discrete_from_comparison(comp, label, copy, check_overlaps)` hands `copy` on as `copy` and `check_overlaps` as
     `check_overlaps`, and `check_overlaps` never reaches the Cython call: what happens to the caller's model depends on `copy` alone
@@ -357,6 +365,41 @@ theorem heap_cqm_copies_disjoint (h : Heap) (d q v l o : Nat) (cs : List Nat) (h
   · omega
   · have := d8 a hmem; omega
 
+/-- **frame of one in-place edit of a CQM** (through `cqm.objective`, a constraint view, `add_variable` / `relabel_variables`,
+    `relabel_constraints`, `add_constraint_from_iterable`, `remove_constraint`): it writes only cells of the CQM's own footprint or cells
+    it allocates itself; the footprint grows by allocated cells only; the object stays well-formed -/
+theorem heap_cqm_edit_frame (h : Heap) (d : Nat) (hg : CGood h d) (e : CEdit) :
+    h.next ≤ (e.run h d).next ∧ CGood (e.run h d) d ∧
+    (∀ a, a < h.next → a ∉ cfp h d → (e.run h d).cell a = h.cell a) ∧
+    (∀ a ∈ cfp (e.run h d) d, a ∈ cfp h d ∨ a = h.next) :=
+  cedit_step hg e
+
+/-- **every copy-producing call of a CQM** — `copy.deepcopy`, `fix_variables(inplace=False)`, and `relabel_variables` /
+    `spin_to_binary` with `inplace=False` (as coded: `copy.deepcopy(self)`, then the in-place method — any list of edits — on the copy):
+    receiver and result are well-formed objects with NO cell in common, and the receiver reads as before the call -/
+theorem heap_cqm_calls_separate (h : Heap) (d : Nat) (hg : CGood h d) (c : CCall) :
+    CSep (c.run h d).1 d (c.run h d).2 ∧ cobs (c.run h d).1 d = cobs h d := by
+  obtain ⟨q, v, l, o, cs, hw, nd⟩ := hg
+  have rb : ∀ ko kc gv gl, CSep (cqmRebuild h d ko kc gv gl).1 d (cqmRebuild h d ko kc gv gl).2 ∧
+      cobs (cqmRebuild h d ko kc gv gl).1 d = cobs h d := fun ko kc gv gl =>
+    ⟨csep_of_rebuild ⟨q, v, l, o, cs, hw, nd⟩ ko kc gv gl, (cqmRebuild_spec hw ko kc gv gl).2.2.2⟩
+  cases c with
+  | deepcopy => exact rb id id id id
+  | fixVariablesCopy ko kc gv => exact rb ko kc gv id
+  | inplaceFalse es =>
+    obtain ⟨s, o1⟩ := rb id id id id
+    obtain ⟨s', o2⟩ := csep_one_sided s.symm es
+    exact ⟨s'.symm, o2.trans o1⟩
+
+/-- **whole histories of two separate CQMs** (a copy and its receiver in particular): along ANY interleaving of in-place edits the two
+    objects never come to share a cell, and any run of edits of one leaves the other reading exactly the same — no later in-place edit of
+    either is ever visible through the other -/
+theorem heap_cqm_histories_independent (h : Heap) (a b : Nat) (s : CSep h a b) (es : List (Bool × CEdit)) (one : List CEdit) :
+    CSep (runCEdits h a b es) a b ∧
+    cobs (one.foldl (fun acc e => e.run acc a) h) b = cobs h b ∧
+    cobs (one.foldl (fun acc e => e.run acc b) h) a = cobs h a :=
+  ⟨csep_history s es, (csep_one_sided s one).2, (csep_one_sided s.symm one).2⟩
+
 /-! ### non-vacuity: a concrete heap with a BQM at cells 0–2 and a second one at 3–5 -/
 
 def h0 : Heap := { cell := fun a => match a with
@@ -371,5 +414,17 @@ example : obs (runEdits (Call.copy.run h0 2 5).1 2 8 [(false, .coeffs (fun _ => 
   decide +kernel
 example : obs (runEdits (Call.copy.run h0 2 5).1 2 8 [(false, .coeffs (fun _ => [9])), (true, .labels (fun _ => []))]) 8 = ([1, 2], []) := by
   decide +kernel
+
+/-- a CQM: objective 3, C++ CQM 4 with one constraint (cell 8), constraint labels 5, variables 6, cy CQM 7 -/
+def hq0cell : Nat → Cell
+  | 3 => .coeffs [4] | 4 => .cqm 3 [8] | 5 => .labels [100] | 6 => .labels [7] | 7 => .cycqm 4 6 5 | 8 => .coeffs [6] | _ => .free
+def hq0 : Heap := { cell := hq0cell, next := 9 }
+
+example : CGood hq0 7 :=
+  ⟨4, 6, 5, 3, [8], ⟨rfl, rfl, by decide, by decide, by decide, by decide, by decide, by decide⟩, by decide⟩
+example : (cqmDeepcopy hq0 7).2 = 13 := rfl
+example : cobs (cqmDeepcopy hq0 7).1 13 = ([4], [[6]], [7], [100]) := by decide +kernel
+example : cobs ((CEdit.constraint 0 (fun _ => [9])).run (cqmDeepcopy hq0 7).1 13) 7 = ([4], [[6]], [7], [100]) := by decide +kernel
+example : cobs ((CEdit.constraint 0 (fun _ => [9])).run (cqmDeepcopy hq0 7).1 13) 13 = ([4], [[9]], [7], [100]) := by decide +kernel
 
 end C19
